@@ -19,6 +19,10 @@ pub fn random_history(rng: &mut Rng, fl: &str, id: &str, nnodes: usize, ncalls: 
         l.push(format!("new {k} {}", rng.below(3)));
     }
     let mut live = Live::default();
+    // most histories keep the graph small (many removals hit); some let it grow past the list-growth thresholds
+    // (4, 8, 16, 32, 64 entries per node) and some use the extremes of the edge value type
+    let crowd_limit = if rng.chance(12) { 90 } else { 12 };
+    let wide = rng.chance(12);
     let pick_pair = |rng: &mut Rng, live: &Live| -> (usize, usize) {
         if !live.edges.is_empty() && rng.chance(35) {
             let (a, b) = live.edges[rng.below(live.edges.len())];
@@ -35,10 +39,10 @@ pub fn random_history(rng: &mut Rng, fl: &str, id: &str, nnodes: usize, ncalls: 
     };
     for _ in 0..ncalls {
         let via = if with_via { format!(" #via={}", VIAS[rng.below(VIAS.len())]) } else { String::new() };
-        let crowded = live.edges.len() > 12;
+        let crowded = live.edges.len() > crowd_limit;
         let r = rng.below(100);
         let (u, v) = pick_pair(rng, &live);
-        let e = rng.below(3);
+        let e = if wide { [0u32, 1, u32::MAX, 1 << 31, u32::MAX - 1][rng.below(5)] } else { rng.below(3) as u32 };
         if (!crowded && r < 35) || (crowded && r < 10) {
             l.push(format!("connect {u} {v} {e}{via}"));
             live.edges.push((u, v));
